@@ -43,6 +43,49 @@ class HarnessError(Exception):
     pass
 
 
+class CaseTimeout(BaseException):
+    """A single case ran into the hard wall-clock limit: abandoned without verdict (inconclusive).  Not an Exception, so
+    that no `except Exception` of the code under test or of a check swallows or reinterprets it."""
+
+
+def _hard_limit(tier):
+    return float(os.environ.get("VF_CASE_HARD_S", "300" if tier == "quick" else "1200"))
+
+
+class hard_timeout:
+    """Wall-clock guard around ONE case (worker main thread, SIGALRM).  A case of the unchanged tree takes seconds; a
+    changed tree can turn one into an effectively endless computation (observed: nested tensordicts growing without
+    bound), which must not keep the whole check from returning.  Hitting the limit is counted (`inconclusive`), never
+    a violation."""
+
+    def __init__(self, ctx, tier):
+        self.ctx, self.sec = ctx, _hard_limit(tier)
+
+    def _fire(self, *_):
+        raise CaseTimeout()
+
+    def __enter__(self):
+        import signal
+        import threading
+
+        self.on = threading.current_thread() is threading.main_thread() and self.sec > 0
+        if self.on:
+            self.prev = signal.signal(signal.SIGALRM, self._fire)
+            signal.setitimer(signal.ITIMER_REAL, self.sec)
+        return self
+
+    def __exit__(self, et, ev, tb):
+        import signal
+
+        if self.on:
+            signal.setitimer(signal.ITIMER_REAL, 0)
+            signal.signal(signal.SIGALRM, self.prev)
+        if et is not None and issubclass(et, CaseTimeout):
+            self.ctx.skipped_deadline += 1
+            self.ctx.event("case_abandoned_at_hard_time_limit")
+        return False
+
+
 # --------------------------------------------------------------------------- helpers
 def h64(obj) -> int:
     s = json.dumps(obj, sort_keys=True, default=str).encode()
@@ -225,8 +268,9 @@ def execute_case(sub: Sub, case, ctx: Ctx):
     ctx.begin(case)
     _seed_case(case)
     try:
-        sub.execute(case, ctx)
-    except SkipCase:
+        with hard_timeout(ctx, ctx.tier):
+            sub.execute(case, ctx)
+    except (SkipCase, CaseTimeout):
         return None
     except Violation as v:
         return v.payload
@@ -349,8 +393,9 @@ def _run_hypothesis(sub: Sub, ctx: Ctx, tier, seed, shard, n_examples, deadline)
         ctx.begin(case)
         _seed_case(case)
         try:
-            sub.execute(case, ctx)
-        except SkipCase:
+            with hard_timeout(ctx, tier):
+                sub.execute(case, ctx)
+        except (SkipCase, CaseTimeout):
             return
         except Violation as v:
             last["payload"] = v.payload
